@@ -85,11 +85,13 @@ fn fwd(op: &Op, _ctx: &dyn Context, operands: &mut dyn CoordinateSet) -> usize {
         let Q = H / t.powf(B);
         let S = (Q - 1.0 / Q) / 2.0;
         let T = (Q + 1.0 / Q) / 2.0;
-        let V = (B * (lon - lambda_0)).sin();
+        // (the longitude difference is reduced with respect to the projection centre)
+        let dlon = crate::math::angular::reduce_longitude_difference(lon - lonc) + (lonc - lambda_0);
+        let V = (B * dlon).sin();
         let U = (S * s0 - V * c0) / T;
         let v = A * ((1.0 - U) / (1.0 + U)).ln() / (2.0 * B);
 
-        let cblon = (B * (lon - lambda_0)).cos();
+        let cblon = (B * dlon).cos();
 
         // Variant A
         if !variant {
